@@ -605,6 +605,13 @@ func (p *printer) heredoc() {
 		for _, r := range list {
 			p.newline()
 			p.word(r.Heredoc)
+			if n := len(r.Heredoc); n != 0 {
+				if w, ok := r.Heredoc[n-1].(*ast.Lit); !ok || w.Value == "" || w.Value[len(w.Value)-1] != '\n' {
+					// the last line of the body was continued up to the
+					// delimiter, which must begin a line
+					p.w.WriteString("\\\n")
+				}
+			}
 			p.word(r.Delim)
 		}
 	}
